@@ -62,10 +62,39 @@ def registry() -> dict:
     return res
 
 
+def _is_simple_type(v) -> bool:
+    import enum
+    if not isinstance(v, type):
+        return False
+    if issubclass(v, enum.Enum):
+        return True
+    return any(k.__name__ == "BaseSimpleType" for k in v.__mro__)
+
+
+def _decl_fields(cc, pname: str):
+    """(attribute name, simple-type class, has_default, default) of an attribute declaration object, read by what its fields HOLD
+    rather than by their private names (a renamed `_simple_type` must not break the check); None if cc is no declaration."""
+    try:
+        fields = dict(vars(cc))
+    except TypeError:
+        return None
+    if isinstance(fields.get("_attr_name"), str) and _is_simple_type(fields.get("_simple_type")):        # the names of the pinned tree
+        return fields["_attr_name"], fields["_simple_type"], "_default" in fields, fields.get("_default")
+    sts = [v for v in fields.values() if _is_simple_type(v)]
+    if len(sts) != 1:
+        return None
+    strs = [v for k, v in fields.items() if isinstance(v, str) and not v.startswith("{") and "default" not in k.lower()]
+    if not strs:
+        return None
+    other = [v for v in strs if v != pname]
+    attr = other[0] if other else pname
+    dkeys = [k for k in fields if "default" in k.lower()]
+    return attr, sts[0], bool(dkeys), (fields[dkeys[0]] if dkeys else None)
+
+
 def attribute_decls() -> list[dict]:
     """One row per (registered tag, declared attribute): element class, property name, attribute name, simple-type
     class (the live class object under key 'st'), declaration kind, default."""
-    from pptx.oxml.xmlchemy import BaseAttribute
     rows = []
     for cls, tags in sorted(registry().items(), key=lambda kv: kv[0].__name__):
         seen = set()
@@ -78,13 +107,17 @@ def attribute_decls() -> list[dict]:
                         cc = cell.cell_contents
                     except ValueError:
                         continue
-                    if isinstance(cc, BaseAttribute):
+                    if type(cc).__module__ != "pptx.oxml.xmlchemy" or isinstance(cc, type):
+                        continue
+                    got = _decl_fields(cc, pname)
+                    if got is not None:
+                        attr, st, has_default, default = got
                         seen.add(pname)
                         for pfx, uri, t in sorted(tags):
-                            rows.append({"cls": cls, "clsname": cls.__name__, "prop": pname, "attr": cc._attr_name,
-                                         "st": cc._simple_type, "stname": cc._simple_type.__name__,
-                                         "kind": type(cc).__name__, "default": getattr(cc, "_default", None),
-                                         "has_default": hasattr(cc, "_default"),
+                            rows.append({"cls": cls, "clsname": cls.__name__, "prop": pname, "attr": attr,
+                                         "st": st, "stname": st.__name__,
+                                         "kind": type(cc).__name__, "default": default,
+                                         "has_default": has_default,
                                          "pfx": pfx, "uri": uri, "tag": t})
                         break
     return rows
